@@ -484,7 +484,10 @@ var inlineExternals = map[string]bool{
 var pureExternalPrefixes = []string{"fmt.Sprintf", "fmt.Sprint", "fmt.Errorf", "fmt.Fprintf", "fmt.Printf", "fmt.Println", "log.Printf", "log.Println", "log.Print",
 	"(*log.Logger).", "strconv.Itoa", "strings.Repeat",
 	// the sorted map of go-sortedmap is an opaque library object: its observers return arbitrary values
-	"(*github.com/tobshub/go-sortedmap.SortedMap[K, V]).Map", "(*github.com/tobshub/go-sortedmap.SortedMap[K, V]).Keys"}
+	"(*github.com/tobshub/go-sortedmap.SortedMap[K, V]).Map", "(*github.com/tobshub/go-sortedmap.SortedMap[K, V]).Keys",
+	// the ordered map of wk8/go-ordered-map is an opaque library object as well: constructors, observers and mutators
+	// return arbitrary values and have no effect on anything the program can see except through the object itself
+	"github.com/wk8/go-ordered-map/v2.", "(*github.com/wk8/go-ordered-map/v2."}
 
 type extHandler func(f *Frame, ns *nodeState, x *ssa.Call, fn *ssa.Function, args []Val) []Val
 
